@@ -33,7 +33,23 @@ def _c08(prop, tier, replay_path):
 
 CHECKS["C08"] = _c08
 
-CHECKS["C12"] = c12.check
+
+
+def _c12(prop, tier, replay_path):
+    """C12 = the request tables (Requests.tla via rqsim) + request handles of real NodeHosts under faults (nhsim)"""
+    import json
+    if replay_path:
+        with open(replay_path) as fh:
+            kind = json.load(fh).get("kind")
+        if kind == "TestVerifNhsim":
+            return nhfamily.check_c12_hosts(prop, tier, replay_path)
+        return c12.check(prop, tier, replay_path)
+    a = c12.check(prop, tier, None)
+    b = nhfamily.check_c12_hosts(prop, tier, None)
+    return 1 if 1 in (a, b) else max(a, b)
+
+
+CHECKS["C12"] = _c12
 CHECKS["C15"] = c15.check
 CHECKS["C14"] = c14.check
 CHECKS["C01"] = nhfamily.check_c01
